@@ -23,7 +23,7 @@ func init() {
 			" Added after the seeded-change rounds: (R1) in multi.toProto every action is appended to the group looked up or created under c.Region() of the call of the same iteration (nothing carried over from the previous call); (R2 shared with C08.R5) the three discoverers detach every evicted overlap from the connection cache; (R5 shared with C08.R4) the overlap search finds every intersecting cached region.",
 		Residue:   "that region.Compare and the b-tree seek locate the owning region for every key and layout (value-level: C16/C08 residue)",
 		Technique: "value provenance over SSA, guarded-return path search with canonical byte-comparison forms, who-may-call tables, constant extraction",
-		Run:       runC01,
+		Run:       runC01All,
 	})
 }
 
@@ -282,7 +282,14 @@ func runC01(c *kit.Ctx) {
 	}
 
 	// ---- R2 ---------------------------------------------------------------
+	if mtp := c.P.Func("region", "multi", "toProto"); mtp != nil {
+		cellblocksInActionOrder(c, mtp)
+	}
+
 	c.StartRule("R2", "the call is stamped with the region it was resolved to", 4)
+	// a located region becomes usable: the probe that decides it accepts every answer that is not of the
+	// region/connection classes (the probe row may lie outside a narrow region: WrongRegionException is an answer)
+	probeClassifiesOutcome(c)
 	{
 		allowed := map[string]bool{"(*gohbase.client).getRegionAndClientForRPC": true, "gohbase.isRegionEstablished": true}
 		for _, fn := range p.Funcs {
@@ -426,6 +433,10 @@ func runC01(c *kit.Ctx) {
 		for _, s := range kit.Calls(ml, kit.M("hrpc", "", "NewScanRange")) {
 			k, ok := kit.Root(s.Common().Args[2]).(*ssa.Call)
 			c.Check(ok && kit.StaticCallee(k) == csk, ml, "meta-scan-start", s.Pos(), "the reversed meta scan starts at createRegionSearchKey(table, key)", "the meta scan does not start at the search key")
+			// ... and stops at the table name: without a stop row the closest row before the search key of an unknown
+			// table is a region of whatever table sorts before it
+			tp := paramOfType(ml, "[]byte", 0)
+			c.Check(tp != nil && kit.Root(s.Common().Args[3]) == ssa.Value(tp), ml, "meta-scan-stop", s.Pos(), "the reversed meta scan stops at the table name", "the meta scan has no stop row (or another one than the table): for a table that does not exist it returns a region of the table sorting before it - the wrong-table check turns that into an ordinary error that is retried with back-off, and the caller never gets TableNotFound")
 		}
 		// appended constants
 		var consts []int64
@@ -536,33 +547,32 @@ func lookupValidators(c *kit.Ctx, grc, ml *ssa.Function) {
 			call, ok := kit.Strip(x).(*ssa.Call)
 			return ok && kit.CalleeName(call) == kit.M("", "", "fullyQualifiedTable") && kit.Same(call.Call.Args[0], R)
 		}
-		// the guard chain: a1 = "stop key is not empty", a2 = "key >= stop"; for each the
-		// successor on which the atom holds (whatever polarity the condition is written in)
-		var a1, a2 *ssa.If
-		var a1Yes, a2Yes *ssa.BasicBlock
+		// the two atoms, wherever they are computed (as a branch condition or as a value a helper returns):
+		// a1 = "stop key is not empty", a2 = "key >= stop"; pol tells which truth value of the comparison says so
+		type atom struct {
+			v   *ssa.BinOp
+			pol bool
+		}
+		var a1s, a2s []atom
 		kit.Instrs(v.fn, func(in ssa.Instruction) {
-			iff, ok := in.(*ssa.If)
+			bo, ok := in.(*ssa.BinOp)
 			if !ok {
 				return
 			}
 			for _, pol := range []bool{true, false} {
-				cmp, ok := kit.CanonCmp(iff.Cond, pol)
+				cmp, ok := kit.CanonCmp(bo, pol)
 				if !ok {
 					continue
-				}
-				yes := kit.SuccOnTrue(iff)
-				if !pol {
-					yes = kit.SuccOnFalse(iff)
 				}
 				if !cmp.Bytes && (cmp.Op == token.NEQ || cmp.Op == token.GTR) {
 					if l := kit.LenOf(cmp.X); l != nil && isStopOfR(l) {
 						if k, ok := kit.ConstInt(cmp.Y); ok && k == 0 {
-							a1, a1Yes = iff, yes
+							a1s = append(a1s, atom{bo, pol})
 						}
 					}
 				}
-				if cmp.Bytes && ((cmp.Op == token.GEQ && cmp.X == ssa.Value(keyP) && isStopOfR(cmp.Y)) || (cmp.Op == token.LEQ && isStopOfR(cmp.X) && cmp.Y == ssa.Value(keyP))) {
-					a2, a2Yes = iff, yes
+				if cmp.Bytes && ((cmp.Op == token.GEQ && kit.Root(cmp.X) == ssa.Value(keyP) && isStopOfR(cmp.Y)) || (cmp.Op == token.LEQ && isStopOfR(cmp.X) && kit.Root(cmp.Y) == ssa.Value(keyP))) {
+					a2s = append(a2s, atom{bo, pol})
 				}
 			}
 		})
@@ -582,13 +592,41 @@ func lookupValidators(c *kit.Ctx, grc, ml *ssa.Function) {
 				}
 			}
 			c.Check(tableOK, v.fn, "table-check", r.Pos(), "the region is returned only if fullyQualifiedTable(region) equals the requested table", "a region of another table (the last region of a same-prefixed table) can be returned for this key")
-			stopOK := a1 != nil && a2 != nil && a1.Block().Dominates(r.Block()) && kit.EdgeDominates(a1.Block(), a1Yes, a2.Block())
+			stopOK := len(a1s) > 0 && len(a2s) > 0
 			why := "no guard of the canonical form len(region.StopKey()) != 0 && key >= region.StopKey() found"
-			if stopOK {
-				e := kit.PathFromBlock(a2Yes, kit.PathQuery{Target: func(x ssa.Instruction) bool { return x == ssa.Instruction(r) }})
-				if e != nil {
+			target := func(x ssa.Instruction) bool { return x == ssa.Instruction(r) }
+			for _, a1 := range a1s {
+				if !stopOK {
+					break
+				}
+				for _, a2 := range a2s {
+					// with "stop not empty" and "key >= stop" both known no way leads to the return of the region
+					e := kit.PathFrom(src[0].(ssa.Instruction), kit.PathQuery{
+						Known:  []kit.Fact{{Cond: a1.v, Pol: a1.pol}, {Cond: a2.v, Pol: a2.pol}},
+						Target: target,
+					})
+					if e != nil {
+						stopOK = false
+						why = "the region is still returned on the edge key >= stop"
+					}
+				}
+				// ... and with "stop not empty" known, none that does not evaluate key >= stop (no other test lets
+				// the region through)
+				e := kit.PathFrom(src[0].(ssa.Instruction), kit.PathQuery{
+					Known:  []kit.Fact{{Cond: a1.v, Pol: a1.pol}},
+					Target: target,
+					Stop: func(x ssa.Instruction) bool {
+						for _, a2 := range a2s {
+							if x == ssa.Instruction(a2.v) {
+								return true
+							}
+						}
+						return false
+					},
+				})
+				if e != nil && stopOK {
 					stopOK = false
-					why = "the region is still returned on the edge key >= stop"
+					why = "with a non-empty stop key the region can be returned without key >= stop having been evaluated (another test lets it through)"
 				}
 			}
 			c.Check(stopOK, v.fn, "stop-key-check", r.Pos(), "the region is returned only if NOT(len(stop) != 0 && key >= stop)", "a key at or beyond the region's stop key can be routed to it (it belongs to the next region): "+why)
@@ -596,5 +634,13 @@ func lookupValidators(c *kit.Ctx, grc, ml *ssa.Function) {
 		if nRet == 0 {
 			c.Unk(v.fn, "validator-return", v.fn.Pos(), "the validator no longer returns the located region")
 		}
+	}
+}
+
+// runC01All: the rules of C01 plus the consistency of the cache it routes by.
+func runC01All(c *kit.Ctx) {
+	runC01(c)
+	if !c.Frozen {
+		embed(c, "R6", "the location cache a request is routed by holds one region per key, the newest (the rules of C08, run as one rule here)", 10, runC08)
 	}
 }
